@@ -175,8 +175,9 @@ def record(scn, cache):
         raise HarnessError("fault-free run of %s is already wrong: %s" % (name, bad))
     # every audited mutation must have been announced by the interposition layer
     amap = {"open-w": "open-w", "os.mkdir": "mkdir", "os.remove": "unlink", "os.rename": "rename", "os.rmdir": "rmdir",
-            "shutil.rmtree": "rmtree", "os.truncate": "truncate", "os.replace": "replace", "os.unlink": "unlink"}
-    seen = [k if k != "remove" else "unlink" for k, _ in pay["oplog"] if k != "open-r"]
+            "shutil.rmtree": "rmtree", "os.truncate": "truncate", "os.replace": "rename", "os.unlink": "unlink"}
+    # (CPython reports os.replace under the audit event os.rename, os.remove under os.remove / os.unlink)
+    seen = [{"remove": "unlink", "replace": "rename"}.get(k, k) for k, _ in pay["oplog"] if k != "open-r"]
     for ev, p in pay["audit"]:
         k = amap.get(ev)
         if k is None or k not in seen:
